@@ -3,12 +3,15 @@
 (/tmp/wt-<PID>/mutants) into /verif/seeded/<PID>-mK/ and removes the worktree."""
 import json, os, shutil, subprocess, sys
 pid = sys.argv[1]
-src = f"/tmp/wt-{pid}/mutants"
+rnd = sys.argv[2] if len(sys.argv) > 2 else "1"
+wt = f"/tmp/wt-{pid}" if rnd == "1" else f"/tmp/w{rnd}-{pid}"
+src = f"{wt}/mutants"
+tag = "m" if rnd == "1" else {"2": "n", "3": "p"}[rnd]
 out = []
 for k in (1, 2, 3):
     if not os.path.exists(f"{src}/m{k}.diff"):
         continue
-    sid = f"{pid}-m{k}"
+    sid = f"{pid}-{tag}{k}"
     d = f"/verif/seeded/{sid}"
     os.makedirs(d, exist_ok=True)
     shutil.copy(f"{src}/m{k}.diff", f"{d}/patch.diff")
@@ -22,5 +25,5 @@ for k in (1, 2, 3):
     meta["demo"] = "demo.py"
     json.dump(meta, open(f"{d}/meta.json", "w"), indent=1)
     out.append(sid)
-subprocess.run(["git", "-C", "/repo", "worktree", "remove", "--force", f"/tmp/wt-{pid}"])
+subprocess.run(["git", "-C", "/repo", "worktree", "remove", "--force", wt])
 print(" ".join(out))
